@@ -210,7 +210,13 @@ impl SmtpConnection {
 
     /// Checks if the server is connected using the NOOP SMTP command
     pub fn test_connected(&mut self) -> bool {
-        self.command(Noop).is_ok()
+        let connected = self.command(Noop).is_ok();
+        if !connected {
+            // The dialogue can no longer be trusted to be in step (the reply
+            // may still arrive): this connection must not be used again
+            self.abort();
+        }
+        connected
     }
 
     /// Sends an AUTH command with the given mechanism, and handles the challenge if needed
